@@ -72,6 +72,7 @@ func init() {
 }
 
 func runC48(c *Ctx) {
+	c48ClosedRechecked(c)
 	sp := c.Prog.SSAPkgs[modPath+"/private/ringbuf"]
 	if sp == nil {
 		c.Fail("anchor", "private/ringbuf", 0, "package not loaded")
